@@ -1189,12 +1189,19 @@ def _limit_probes(h: Harness) -> None:
     # far beyond: the harness itself must not build the number, only the refusal is checked
     probes += [("1e99999999", "extreme"), ("7E+123456789012345678901234567890", "extreme"),
                ("-3e" + "9" * 5000, "extreme")]
+    guard_seen = True
     for text, zone in probes:
+        if zone == "extreme" and not guard_seen:
+            # without a working guard the engine would try to build the number: skip
+            ctx.count("limit_probes_extreme_skipped", len(LIMIT_SITES))
+            continue
         for name in LIMIT_SITES:
-            check_limit_probe(h, name, text, zone)
+            if not check_limit_probe(h, name, text, zone) and zone == "beyond":
+                guard_seen = False
 
 
-def check_limit_probe(h: Harness, name: str, text: str, zone: str) -> None:
+def check_limit_probe(h: Harness, name: str, text: str, zone: str) -> bool:
+    """True when the literal was refused with a LiquidError."""
     from liquid2 import limits
 
     ctx = h.ctx
@@ -1213,7 +1220,7 @@ def check_limit_probe(h: Harness, name: str, text: str, zone: str) -> None:
     if zone != "within" and refused:
         ctx.count("limit_probes_refused_with_LiquidError")
     if o.kind == "ok" or (zone != "within" and refused):
-        return
+        return refused
     shape = "exp" if "e" in text.lower() else "plain"
     key = f"int-limit:{zone}:{o.kind if o.kind != 'wrong' else 'wrong-value'}:{shape}"
     short_text = text if len(text) < 80 else f"{text[:20]}...({len(text)} chars)...{text[-20:]}"
@@ -1221,6 +1228,7 @@ def check_limit_probe(h: Harness, name: str, text: str, zone: str) -> None:
                        f"{limits.MAX_STR_INT}): {o.kind} {o.detail}",
                   {"kind": "limit", "site": name, "text": text, "zone": zone,
                    "outcome": o.kind, "detail": o.detail})
+    return refused
 
 
 def _numbers(h: Harness, spec: dict[str, Any]) -> None:
